@@ -14,6 +14,7 @@ bytecode compiler, harness/c13trace.py) on several inputs incl. special values;
 (3) value_class.py's transfer tables are compared with the proved atom tables on all inputs.
 """
 import itertools
+import re
 import signal
 import time
 
@@ -38,9 +39,10 @@ MANIFEST = {
 }
 
 HEADER = COQ_HEADER + ('From FpyV Require Import Num.Out Analysis.ClassLattice Analysis.Instr Analysis.FactClass '
-                       'Cases.C13Cases.\n')
+                       'Analysis.FactReach Analysis.FactConst Cases.C13Cases.\n')
 
 KEY_FOR_SHADOW = 'for-target-rebinds-variable'
+KEY_STALE_COND = 'partial-eval-stale-while-condition'
 
 
 class _Timeout(Exception):
@@ -106,12 +108,52 @@ def table_cases():
     return terms
 
 
+def nested_while_cond_nodes(fd):
+    """ids of the expression nodes inside the condition of a `while` that is nested in another loop."""
+    import fpy2.ast.fpyast as A
+    from ..c13lib import _children
+    out = set()
+
+    def expr(e):
+        out.add(id(e))
+        for c in _children(e):
+            expr(c)
+        if isinstance(e, A.ListComp):
+            pass
+
+    def block(b, in_loop):
+        for s in b.stmts:
+            if isinstance(s, A.WhileStmt) and in_loop:
+                expr(s.cond)
+            loop = in_loop or isinstance(s, (A.WhileStmt, A.ForStmt))
+            for attr in ('body', 'ift', 'iff'):
+                c = getattr(s, attr, None)
+                if isinstance(c, A.StmtBlock):
+                    block(c, loop)
+    block(fd.body, False)
+    return out
+
+
+def classify(b, shadow, stale_nodes):
+    """The known-finding key of a traced fact violation, or None."""
+    node = b['node']
+    first = node.split(' ')[0] if node else ''
+    if b['analysis'].startswith('partial_eval') and id(b.get('obj')) in stale_nodes:
+        return KEY_STALE_COND
+    if shadow and (node in shadow or first in shadow or b.get('var') in shadow):
+        return KEY_FOR_SHADOW
+    return None
+
+
 def analyse_and_trace(ck, fn, prog_src, arg_sets, callers, info):
-    """Facts + traced runs of one function.  Returns (Facts, runs) where runs = [(args, caller, outcome)]."""
+    """Facts + traced runs of one function.  Returns (Facts, runs, shadow, known_keys)."""
+    from ..c13lib import same_value
     F = Facts(fn)
     for name, err in F.errors.items():
         ck.count(f'analysis-raised:{name}')
     shadow = shadowed_for_targets(fn.ast, F.du)
+    stale_nodes = nested_while_cond_nodes(fn.ast)
+    known_keys = set()
     pyfn, rec, _ = compile_traced(fn, F.du)
     runs = []
     for args, caller in zip(arg_sets, callers):
@@ -124,12 +166,12 @@ def analyse_and_trace(ck, fn, prog_src, arg_sets, callers, info):
             continue
         # the tracing compiler must not change what the function computes
         try:
-            ref = with_timeout(lambda pa=pa, cobj=cobj: ('ok', fn(*pa) if cobj is None else fn(*pa, ctx=cobj)))
+            ref = with_timeout(lambda pa=pa, cobj=cobj: ('ok', fn(*[py_of_arg(a) for a in args]) if cobj is None
+                                                         else fn(*[py_of_arg(a) for a in args], ctx=cobj)))
         except _Timeout:
             continue
         except Exception as e:  # noqa: BLE001
             ref = ('exc', e)
-        from ..c13lib import same_value
         same = (ref[0] == out[0]) and (same_value(ref[1], out[1]) if out[0] == 'ok' else type(ref[1]) is type(out[1]))
         if not same:
             ck.broken.append(f'tracing changed the outcome of a run: {info}')
@@ -137,9 +179,8 @@ def analyse_and_trace(ck, fn, prog_src, arg_sets, callers, info):
         ck.count('run:' + out[0] + ('' if out[0] == 'ok' else ':' + type(out[1]).__name__))
         ck.count('events', len(events))
         for b in check_trace(F, events):
-            key = None
-            if shadow and any(nm in b['node'].split()[0:1] or b['node'] == nm or b['node'].startswith(nm + ' ') for nm in shadow):
-                key = KEY_FOR_SHADOW
+            key = classify(b, shadow, stale_nodes)
+            known_keys.add(key)
             ck.count('fact-violated:' + b['analysis'])
             ck.violation(f"{b['analysis']}: {b['what']}",
                          {'program': prog_src, 'args': [repr(a) for a in args], 'caller_ctx': None if caller is None else caller.py(),
@@ -147,7 +188,7 @@ def analyse_and_trace(ck, fn, prog_src, arg_sets, callers, info):
                           'note': 'observed on the real interpreter (harness/c13trace.py); replay: load the program, run the analysis, call main(*args)'},
                          key=key)
         runs.append((args, caller, out))
-    return F, runs, shadow
+    return F, runs, shadow, known_keys
 
 
 def run(ck):
@@ -179,8 +220,8 @@ def run(ck):
                      '(or representable_classes omits a class the context can produce)', {'entry': tabs[i]})
 
     # ---- (1)+(2) generated programs
-    nprog = 900 if thorough else 150
-    nargs = 8 if thorough else 5
+    nprog = 900 if thorough else 120
+    nargs = 8 if thorough else 4
     cases, info = [], []
     t0 = time.time()
     rejected = 0
@@ -208,7 +249,7 @@ def run(ck):
             continue
         fn = mod.main
         src = prog.source()
-        F, runs, shadow = analyse_and_trace(ck, fn, src, arg_sets, callers, f'program {idx}')
+        F, runs, shadow, known_keys = analyse_and_trace(ck, fn, src, arg_sets, callers, f'program {idx}')
         for f in getattr(g, 'features', ()):
             ck.count('feature:' + f)
         nf = F.nfacts()
@@ -225,8 +266,17 @@ def run(ck):
                 for f in lang.export_program(cal).funcs:
                     callees[f.name] = f
             P = clist(f'({lang.cstr(f.name)}, {f.coq()})' for f in callees.values())
-        except Unsupported as e:
+        except Unsupported:
             ck.count('export:outside-fragment')
+            continue
+        except KeyError as e:
+            # DefineUse's own tables are inconsistent (a definition site without a definition)
+            if shadow:
+                ck.violation('DefineUse reports no definition for a binding site (find_def_from_site raises)',
+                             {'program': src, 'error': str(e)[:300]}, key=KEY_FOR_SHADOW)
+            else:
+                ck.violation('DefineUse reports no definition for a binding site (find_def_from_site raises)',
+                             {'program': src, 'error': str(e)[:300]})
             continue
         rterms = []
         for args, caller, out in runs:
@@ -237,7 +287,7 @@ def run(ck):
             except Unsupported:
                 ck.count('export:value-outside-model')
         cases.append(f'({P}, {term}, {clist(rterms)})')
-        info.append((idx, src, shadow, fn, F, arg_sets))
+        info.append((idx, src, shadow, known_keys))
     ck.log(f'{len(cases)} programs analysed, traced and exported in {time.time() - t0:.1f}s ({rejected} rejected)')
     if rejected > nprog // 10:
         ck.broken.append(f'generator: {rejected} of {nprog} generated programs were rejected by the fpy2 front end')
@@ -247,20 +297,75 @@ def run(ck):
                'incl. shadowing targets, constant chains, list binding / indexing / slicing / mutation / tuple packing; 1 in 5 from the C04 '
                'program generator) x argument tuples incl. NaN, +-inf, +-0, huge and tiny values x {no caller ctx, small ctx}; '
                'non-trivial = distinct programs with at least one non-top class fact, constant fact or phi')
-    bad, err = ck.coq_eval_mismatches(HEADER, 'case13', cases, 'check13', chunk=max(2, len(cases) // 32 + 1), timeout=1500)
+    bad, err, stats = eval_cases(ck, cases)
     if err:
         ck.broken.append('checker evaluation failed: ' + err[:600])
-    for i in bad:
-        idx, src, shadow, fn, F, arg_sets = info[i]
-        out = ck.coq_eval_raw(HEADER, f'diag13 {cases[i]}', name=f'diag_{idx:05d}', timeout=600)
-        static_ok = '(true,' in out.replace('\n', ' ').replace('  ', ' ')[:400]
-        if shadow:
-            # the known defect: the verified checker rejects these facts (loop head not inductive) and traced runs violate them
-            ck.violation('the verified fact checker rejects the reported facts', {'program': src, 'diag': out[-1500:]}, key=KEY_FOR_SHADOW)
-            continue
-        ck.count('coq:' + ('dynamic-disagreement' if static_ok else 'checker-rejected'))
-        ck.violation('the verified fact checker rejects the facts reported by the real analysis, or the instrumented model '
-                     'execution disagrees with fpy2 / violates a fact' if not static_ok else
+    ck.count('const-facts:reported-in-fragment', stats[0])
+    ck.count('const-facts:certified-by-the-proved-checker', stats[1])
+    ck.extra['const_facts_checked_by_tracing_not_proved'] = stats[0] - stats[1]
+    ndiag = 0
+    for i, verdict in bad:
+        idx, src, shadow, known_keys = info[i]
+        names = ('class', 'reach', 'const', 'dynamic')
+        failed = [n for n, ch in zip(names, verdict) if ch != '1']
+        static_ok = all(n == 'dynamic' for n in failed)
+        ck.count('coq:' + ('dynamic-disagreement' if static_ok else 'checker-rejected:' + ','.join(f for f in failed if f != 'dynamic')))
+        out = ''
+        if ndiag < 6:
+            ndiag += 1
+            out = ck.coq_eval_raw(HEADER, f'diag13 {cases[i]}', name=f'diag_{idx:05d}', timeout=600)
+        # a program whose traced runs violate facts only through a listed defect: the checkers reject it for that reason
+        key = None
+        if known_keys and len(known_keys) == 1:
+            key = next(iter(known_keys))
+        elif shadow:
+            key = KEY_FOR_SHADOW
+        ck.violation(('the verified fact checker(s) for %s reject the facts reported by the real analysis' % ', '.join(f for f in failed if f != 'dynamic'))
+                     if not static_ok else
                      'the instrumented model execution disagrees with fpy2 or one of its events violates a reported fact',
-                     {'program_index': idx, 'program': src, 'diag (static verdict, per run: outcome agrees, trace satisfies facts, model outcome)': out[-2500:]},
-                     no_input=not static_ok)
+                     {'program_index': idx, 'program': src, 'failed': failed,
+                      'diag ((class, reach, const) static verdicts; per run: outcome agrees, (class, reach, const) claims hold on the model trace, model outcome)': out[-2500:]},
+                     key=key, no_input=(not static_ok and key is None))
+
+
+def eval_cases(ck, cases, chunk=None, timeout=1500, jobs=16):
+    """check13 on every case (vm_compute), plus the constant-fact statistics.  -> (bad indices, error text, (reported, certified))"""
+    from ..common import COQ, sh
+    chunk = chunk or max(2, len(cases) // 32 + 1)
+    shards = []
+    for si in range(0, len(cases), chunk):
+        part = cases[si:si + chunk]
+        name = f'cases_{si // chunk:04d}'
+        body = ';\n'.join(f'({si + j}%nat, {c})' for j, c in enumerate(part))
+        text = (HEADER + '\n'
+                f'Definition cases : list (nat * case13) := [\n{body}\n].\n'
+                'Definition bad := flat_map (fun ic => let v := verdict13 (snd ic) in '
+                'if all_ok13 v then [] else [(fst ic, v)]) cases.\n'
+                'Eval vm_compute in bad.\n'
+                'Definition stats := fold_right (fun ic acc => let s := const_stats13 (snd ic) in '
+                '(fst s + fst acc, snd s + snd acc)%nat) (0%nat, 0%nat) cases.\n'
+                'Eval vm_compute in stats.\n')
+        (ck.dir / f'{name}.v').write_text(text)
+        shards.append(name)
+    if not shards:
+        return [], None, (0, 0)
+    cmd = (f"xargs -P{jobs} -I{{}} sh -c 'timeout {timeout} coqc -Q {COQ} FpyV -Q . Dyn {{}}.v > {{}}.out 2>&1 || echo FAIL >> {{}}.out'")
+    sh(cmd, cwd=ck.dir, input='\n'.join(shards), timeout=timeout * (len(shards) // jobs + 1) + 60)
+    bad, err, rep, cert = [], None, 0, 0
+    for name in shards:
+        out = (ck.dir / f'{name}.out').read_text()
+        m = re.search(r'=\s*\[(.*?)\]\s*:\s*list \(nat', out, re.S)
+        s = re.search(r'=\s*\((\d+)%nat,\s*(\d+)%nat\)\s*:\s*nat \* nat', out)
+        if 'FAIL' in out or not m or not s:
+            err = (err or '') + f'{name}: {out[-500:]}\n'
+            continue
+        body = m.group(1).strip()
+        nfound = 0
+        for mm in re.finditer(r'\((\d+)%nat,\s*\(?(true|false),\s*(true|false),\s*(true|false),\s*(true|false)\)', ' '.join(body.split())):
+            bad.append((int(mm.group(1)), ''.join('1' if g == 'true' else '0' for g in mm.groups()[1:])))
+            nfound += 1
+        if body and not nfound:
+            err = (err or '') + f'{name}: cannot parse {body[:200]}\n'
+        rep += int(s.group(1))
+        cert += int(s.group(2))
+    return sorted(bad), err, (rep, cert)
